@@ -440,7 +440,33 @@ def main(argv=None):
                                  obj.get("replay", {"corpus_file": str(cf.relative_to(VERIF))}))
                 except Exception as e:  # noqa: BLE001
                     ctx.extra.setdefault("corpus_errors", []).append(f"{cf.name}: {type(e).__name__}: {e}")
+        # syntactic side channel: is the anchored code still the code the model was aligned with?
+        try:
+            import anchors
+            anch = anchors.compare(prop)
+        except Exception as e:  # noqa: BLE001
+            anch = {"error": f"{type(e).__name__}: {e}", "changed": []}
+        ctx.extra["anchored_source"] = anch
         mod.run(ctx)
+        # the anchored code differs from the aligned one: spend more search effort on it (never a violation
+        # by itself; further seeds of the same generators, while time allows and nothing has failed yet)
+        if anch.get("changed") and tier == "quick" and os.environ.get("VERIF_NO_ESCALATE") != "1":
+            rounds = 0
+            for k in range(1, 4):
+                if ctx.fails or ctx.elapsed() > 0.3 * budget:
+                    break
+                ctx.seed = seed + 1000003 * k
+                ctx.rng = random.Random(f"{prop}:{ctx.seed}")
+                try:
+                    mod.run(ctx)
+                    rounds += 1
+                except Timeout:
+                    raise
+                except Exception as e:  # noqa: BLE001
+                    ctx.extra.setdefault("escalation_errors", []).append(f"{type(e).__name__}: {e}")
+                    break
+            ctx.seed = seed
+            ctx.extra["escalation_rounds"] = rounds
         rc = ctx.finish()
         print(f"[{prop}] tier={tier} seed={seed} evaluations={ctx.evaluations} distinct={len(ctx.nontrivial)} "
               f"obligations={ctx.proof['obligations']}/{ctx.proof['discharged']} disagreements={len(ctx.disagreements)} "
